@@ -315,6 +315,11 @@ var nativeHooks = map[string]func(fr *frame, recv any, args []value) value{}
 func toNative(fr *frame, v value, t reflect.Type, what string) reflect.Value {
 	switch t.Kind() {
 	case reflect.String:
+		if _, sym := v.(*symstr); sym && strings.HasPrefix(what, "*regexp.Regexp.") {
+			// methods of the host regexp without a symbolic model (FindAll*, ReplaceAll*, ...):
+			// the input is split into its feasible concrete values, one path each
+			return reflect.ValueOf(fr.concretizeString(v)).Convert(t)
+		}
 		return reflect.ValueOf(concStr(fr, v, what)).Convert(t)
 	case reflect.Bool:
 		b, ok := v.(bool)
